@@ -662,6 +662,15 @@ func ruleX3(p *Prog, r *Report) {
 				r.Decide(bad == "", R, "health-predicate:root-count-exact", p.InstrPos(startBlk.Instrs[len(startBlk.Instrs)-1]),
 					"the check fails exactly when a non-negative expected root count differs from the number of roots found",
 					"the root-count predicate is not exact: "+bad)
+				// ... and no success return leaves the check before that comparison (a fast path for "simple" storages
+				// that returns the roots it found would accept any expectation)
+				n++
+				byp := successReturnAvoiding(h, nil, func(z ssa.Instruction) bool { return z.Block() == startBlk })
+				pos2 := p.Pos(h.Pos())
+				if byp != nil {
+					pos2 = p.InstrPos(byp)
+				}
+				r.Decide(byp == nil, R, "health-predicate:root-count-not-bypassed", pos2, "every success return passes the comparison with the expected number of roots", "a success return of the check is reachable without passing the comparison with the expected number of roots: for the storages that take this way out any expectation is accepted")
 			}
 		}
 		// every reference resolves: the map that records the referenced ids (key converted from a SlabIDStorable)
